@@ -87,9 +87,9 @@ def routing_table(ctx):
     try:
         text = sbx_route.emit(lib.SRC)
     except (sbx_route.Untranslatable, SyntaxError, OSError) as e:
-        ctx.obligations += 3
-        ctx.obligation_names.append("Gen_sbx_route (regenerated, 3)")
+        ctx.obligations += 4
+        ctx.obligation_names.append("Gen_sbx_route (regenerated, 4)")
         ctx.broken.append(f"translator gen/sbx_route.py: compiler.py visitors left the recognised emission vocabulary: {e}")
         return False
-    ok, _ = checked_obligation(ctx, "Gen_sbx_route", text, 3)
+    ok, _ = checked_obligation(ctx, "Gen_sbx_route", text, 4)
     return ok
